@@ -35,6 +35,18 @@ var Renamed []string
 
 var renamedObj = map[*types.Func]string{} // new function -> pinned display name
 
+// pinnedDisplay: display name to use for a function recognised across a receiver change.
+var pinnedDisplay = map[*Fn]string{}
+
+// pinnedDisplayName renders the pinned name of a method whose receiver kind is not known any more: rules
+// look functions up as "T.m", "(*T).m" or "(T).m"; the pointer form is the common one.
+func pinnedDisplayName(recv, name string, _ *Fn) string {
+	if recv == "" {
+		return name
+	}
+	return "(*" + recv + ")." + name
+}
+
 // PinnedName is the exported form of pinnedBareName for objects of any kind.
 func PinnedName(o types.Object) string {
 	if f, ok := o.(*types.Func); ok {
@@ -231,9 +243,22 @@ func applyRenames(pkg *packages.Package, fns []*Fn) {
 				}
 			}
 			if len(byShape) != 1 || shapeRivals != 1 {
-				continue
+				// last resort: a method that did not use its receiver turned into a plain function (or the
+				// reverse): same signature and exactly the same body shape, whatever the receiver
+				var anyRecv []*Fn
+				for _, f := range fresh {
+					if m.shape != "" && SigText(f.Decl.Type) == m.sig && ShapeHash(f.Decl.Body) == m.shape && RecvName(f.Decl) != m.recv {
+						anyRecv = append(anyRecv, f)
+					}
+				}
+				if len(anyRecv) != 1 || shapeRivals > 1 {
+					continue
+				}
+				cands = anyRecv
+				pinnedDisplay[anyRecv[0]] = pinnedDisplayName(m.recv, m.name, anyRecv[0])
+			} else {
+				cands = byShape
 			}
-			cands = byShape
 		}
 		f := cands[0]
 		newName := f.Name
@@ -242,6 +267,9 @@ func applyRenames(pkg *packages.Package, fns []*Fn) {
 		id.Name = m.name
 		d2.Name = &id
 		f.Name = declName(&d2)
+		if pd, ok := pinnedDisplay[f]; ok {
+			f.Name = pd
+		}
 		if f.Obj != nil {
 			renamedObj[f.Obj] = f.Name
 		}
